@@ -60,11 +60,11 @@ def run(ctx):
     ctx.rule = ("scripts that emphasise set iteration: templates with several parameters per argument and with "
                 "names that are substrings of each other, several measured registers per argument, include trees "
                 "acting on several modes in non-increasing first-use order, five to nine registers in one argument, templates holding register transforms that are instantiated (directly and through an include called with values); each is loaded and serialised in fresh "
-                "interpreters with PYTHONHASHSEED = 0..7 (quick) / 0..31 (thorough); oracle: identical canonical "
+                "interpreters with PYTHONHASHSEED = 0..23 (quick) / 0..47 (thorough); oracle: identical canonical "
                 "content, serialisation text, parameter set, mode set and register pairing values in every process "
                 "(only the listing order inside a register transform may differ); non-trivial = at least two "
                 "symbols in one argument or an include on at least two modes; distinct by text / file contents")
-    seeds = list(range(ctx.n(8, 32)))
+    seeds = list(range(ctx.n(24, 48)))
     n = ctx.n(200, 1500)
     cases = []
     meta = []
@@ -82,6 +82,28 @@ def run(ctx):
             roots.append(root)
             cases.append({"files": real, "main": os.path.join(root, "main.xbb"), "root": root})
             meta.append(("include-with-clashing-parameter-names", True))
+            continue
+        if i % 16 == 9:
+            # a tdm program with a p-array AND a template parameter of the same name (the table holds the name as a
+            # string and the parameter as a symbol), next to other parameters
+            pn = ctx.rng.choice(["p0", "p1", "p12"])
+            other = ctx.rng.sample(["r", "phi", "a"], 2)
+            t = ("name s\nversion 1.0\ntype tdm (temporal_modes=2)\n\nfloat array %s =\n    1, 2\nSgate(%s, {%s}) | 0\n"
+                 "Rgate({%s} + {%s}) | 1\nG({%s}) | 0\n" % (pn, pn, other[0], pn, other[1], other[0]))
+            cases.append({"text": t})
+            meta.append(("tdm-parameter-named-like-its-p-array", True))
+            continue
+        if i % 16 == 1:
+            # an included template one of whose arguments is a LIST of differently built expressions over the same
+            # parameters, called with values
+            p1, p2 = ctx.rng.sample(["r", "phi", "a", "al", "x"], 2)
+            files = {"feed.xbb": "name Feed\nversion 1.0\n\nSgate(0.1, w=[{%s} - 2*{%s}, {%s} - 2*{%s}, {%s}*{%s} + {%s}]) | 0\nRgate([{%s}/{%s}, {%s}/{%s}][0]) | 1\n".replace("Rgate([{%s}/{%s}, {%s}/{%s}][0]) | 1\n", "Rgate({%s}/{%s}) | 1\n") % (
+                         p1, p2, p2, p1, p1, p2, p2, p2, p1),
+                     "main.xbb": 'name m\nversion 1.0\ninclude "feed.xbb"\n\nFeed(%s=0.5, %s=0.125) | [2, 3]\nFeed(%s=0.125, %s=0.5) | [3, 2]\n' % (p1, p2, p1, p2)}
+            root, real = c07.materialise(files)
+            roots.append(root)
+            cases.append({"files": real, "main": os.path.join(root, "main.xbb"), "root": root})
+            meta.append(("included-template-with-list-of-expressions", True))
             continue
         if i % 8 == 3:
             # five to nine registers in ONE argument, in a function that is not symmetric in them (small sets are
@@ -138,7 +160,8 @@ def run(ctx):
             ctx.sample(c.get("text") or c["files"])
         if "error" in results[0][k]:
             ctx.count("load-error")
-            if kind in ("included-template-with-register-transforms", "many-registers-in-one-argument"):
+            if kind in ("included-template-with-register-transforms", "many-registers-in-one-argument",
+                        "tdm-parameter-named-like-its-p-array", "included-template-with-list-of-expressions"):
                 ctx.violation("hash seed sweep: a case built to load is refused: %s" % results[0][k]["error"],
                               {"kind": "hashseed", "case": {kk: v for kk, v in c.items() if kk != "root"}, "seeds": seeds})
         msg = compare(results, seeds, k)
